@@ -68,18 +68,21 @@ type Admit func(res, op string, old, new runtime.Object) (runtime.Object, error)
 
 // API is the authoritative object store.
 type API struct {
-	mu     sync.Mutex
-	Clock  clock.PassiveClock
-	objs   map[string]map[string]runtime.Object // resource -> ns/name -> obj
-	logs   map[string][]Event                   // resource -> watch log
-	rv     int
-	uid    int
-	seq    int
-	Calls  []Call
-	gates  map[string]Gate
-	dead   map[string]bool
-	Admit  Admit
-	OnCall func(c Call)
+	mu    sync.Mutex
+	Clock clock.PassiveClock
+	objs  map[string]map[string]runtime.Object // resource -> ns/name -> obj
+	logs  map[string][]Event                   // resource -> watch log
+	rv    int
+	uid   int
+	seq   int
+	Calls []Call
+	gates map[string]Gate
+	// FailPodDeletes makes the next n Pod deletes issued by a stepped controller fail (they are not gated, so this is
+	// how a fault reaches them)
+	FailPodDeletes int
+	dead           map[string]bool
+	Admit          Admit
+	OnCall         func(c Call)
 	// Pod deletes issued by a stepped controller are not gated (ConcurrentTasks issues them from several
 	// goroutines in scheduler order). To keep runs reproducible their effect is deferred to the end of the
 	// segment, where FlushPodDeletes applies them in name order; the caller gets the outcome at once (it only
@@ -217,6 +220,10 @@ func (a *API) react(actor string, action ktesting.Action) (bool, runtime.Object,
 	}
 	a.mu.Lock()
 	defer a.mu.Unlock()
+	if verb == "delete" && res == "pods" && g != nil && a.FailPodDeletes > 0 {
+		a.FailPodDeletes--
+		injected = kerrors.NewInternalError(fmt.Errorf("injected fault"))
+	}
 	ns := action.GetNamespace()
 	call := Call{Actor: actor, Verb: verb, Resource: res, Sub: action.GetSubresource()}
 	finish := func(obj runtime.Object, err error) (bool, runtime.Object, error) {
